@@ -550,6 +550,9 @@ func c18Run(c *Ctx) {
 			}
 			src = Lines(lines...)
 		}
+		if m := RunModel(src, "", false, 0); m.Res != nil && strings.Contains(m.Res.OOD, "cap") {
+			continue // unbounded or memory-exhausting program
+		}
 		cs := c18Case(c, r, "generated-programs", src, "")
 		if cs == nil {
 			continue
